@@ -6,12 +6,39 @@
    exactly that path: its node path — read off the wrapper and printed in the message — is the
    path of the failing node.  Whatever the sibling nodes at every level do.
    Also: a well-nested forest never runs out of nesting fuel. *)
-From Eino Require Import Base.Util Model.Errors Proofs.Errors Proofs.ErrorsRun Proofs.ErrorsMsg.
+From Eino Require Import Base.Util Model.Errors Proofs.Errors Proofs.ErrorsRun Proofs.ErrorsMsg Proofs.ErrorsHandlers.
 
 (* sub-graph indices point forward in the forest (how the harness flattens a nested case) *)
 Definition forward (F : forest) : Prop :=
   forall i g st k gi, nth_error F i = Some g -> In st (g_stages g) -> In (NSub k gi) st ->
     (i < gi)%nat /\ (gi < List.length F)%nat.
+
+(* the one combination of state handler and node the model leaves out (answer NFuel): a post-handler
+   on a lazily transforming lambda, which makes the run loop itself read the node's input stream *)
+Definition post_ok_node (n : node) : bool :=
+  match n with NLam _ FT (BPostFail _) => false | _ => true end.
+Definition post_ok (F : forest) : Prop :=
+  forall i g st n, nth_error F i = Some g -> In st (g_stages g) -> In n st -> post_ok_node n = true.
+Definition post_okb (F : forest) : bool :=
+  forallb (fun g => forallb (forallb post_ok_node) (g_stages g)) F.
+
+Lemma post_okb_sound : forall F, post_okb F = true -> post_ok F.
+Proof.
+  intros F H i g st n Hg Hst Hn. unfold post_okb in H. rewrite forallb_forall in H.
+  specialize (H g (nth_error_In _ _ Hg)). rewrite forallb_forall in H. specialize (H st Hst).
+  rewrite forallb_forall in H. apply H. exact Hn.
+Qed.
+
+Lemma with_post_not_fuel : forall stream items k f b, post_ok_node (NLam k f b) = true ->
+  exec_lambda stream items f b <> NFuel ->
+  with_post stream b (exec_lambda stream items f b) <> NFuel.
+Proof.
+  intros stream items k f b Hp Hnf. destruct b; cbn [with_post]; auto.
+  destruct (exec_lambda stream items f (BPostFail e)) as [[|[e0|i] its] c|es|] eqn:Ex; try discriminate.
+  - exfalso. unfold exec_lambda in Ex.
+    destruct stream, f; cbn in Ex; try discriminate; try (destruct items; cbn in Ex; discriminate).
+  - contradiction.
+Qed.
 
 Lemma exec_lambda_not_fuel : forall stream items f b, exec_lambda stream items f b <> NFuel.
 Proof.
@@ -41,12 +68,15 @@ Section Fuel.
   Definition subs_exist (g : graph) : Prop :=
     forall st k gi, In st (g_stages g) -> In (NSub k gi) st -> nth_error F gi <> None.
 
+  Definition posts_ok (g : graph) : Prop :=
+    forall st n, In st (g_stages g) -> In n st -> post_ok_node n = true.
+
   Lemma exec_node_no_fuel : forall rec g st n items canc,
-    rec_no_fuel rec g -> subs_exist g -> In st (g_stages g) -> In n st ->
+    rec_no_fuel rec g -> subs_exist g -> posts_ok g -> In st (g_stages g) -> In n st ->
     exec_node F stream rec items canc n <> NFuel.
   Proof.
-    intros rec g st n items canc Hrec Hsub Hst Hn. destruct n as [k f b|k gi|k ts]; cbn [exec_node].
-    - apply exec_lambda_not_fuel.
+    intros rec g st n items canc Hrec Hsub Hpo Hst Hn. destruct n as [k f b|k gi|k ts]; cbn [exec_node].
+    - apply (with_post_not_fuel stream items k); [exact (Hpo st _ Hst Hn)|apply exec_lambda_not_fuel].
     - destruct (nth_error F gi) as [g'|] eqn:Eg.
       + pose proof (Hrec st k gi g' Hst Hn Eg items canc) as Hr.
         destruct (rec g' items canc); try discriminate. contradiction.
@@ -65,23 +95,25 @@ Section Fuel.
   Qed.
 
   Lemma stage_no_fuel : forall rec g st items canc,
-    rec_no_fuel rec g -> subs_exist g -> In st (g_stages g) ->
+    rec_no_fuel rec g -> subs_exist g -> posts_ok g -> In st (g_stages g) ->
     any_fuel (map (fun n => (node_key n, exec_node F stream rec items canc n)) st) = false.
   Proof.
-    intros rec g st items canc Hrec Hsub Hst. apply any_fuel_false.
+    intros rec g st items canc Hrec Hsub Hpo Hst. apply any_fuel_false.
     intros n Hn. eapply exec_node_no_fuel; eauto.
   Qed.
 
-  Lemma steps_no_fuel : forall rec g, rec_no_fuel rec g -> subs_exist g ->
+  Lemma steps_no_fuel : forall rec g, rec_no_fuel rec g -> subs_exist g -> posts_ok g ->
     forall k cur items canc, incl cur (g_stages g) ->
       steps F stream rec (g_stages g) (g_loop g) (g_br g) k cur items canc <> GFuel.
   Proof.
-    intros rec g Hrec Hsub. induction k as [|k IH]; intros cur items canc Hincl.
+    intros rec g Hrec Hsub Hpo. induction k as [|k IH]; intros cur items canc Hincl.
     - destruct cur; cbn; [discriminate|]. destruct canc; discriminate.
     - destruct cur as [|st rest]; cbn [steps]; [discriminate|].
       destruct canc; [discriminate|].
+      destruct (pre_fails stream items st) as [|pf0 pfs];
+        [|cbv beta iota; destruct (pre_panic stream items); discriminate].
       rewrite stage_fold_spec. cbn [orb app].
-      rewrite (stage_no_fuel rec g st items false Hrec Hsub) by (apply Hincl; left; reflexivity).
+      rewrite (stage_no_fuel rec g st items false Hrec Hsub Hpo) by (apply Hincl; left; reflexivity).
       destruct (all_fails _); [|discriminate].
       destruct (any_int _).
       + destruct (first_lazy _); [discriminate|]. destruct (item_errors _); discriminate.
@@ -92,13 +124,13 @@ Section Fuel.
   Qed.
 End Fuel.
 
-Lemma run_graph_no_fuel : forall F stream, forward F ->
+Lemma run_graph_no_fuel : forall F stream, forward F -> post_ok F ->
   forall d i g items canc, nth_error F i = Some g -> (List.length F - i <= d)%nat ->
     run_graph F stream d g items canc <> GFuel.
 Proof.
-  intros F stream HF. induction d as [|d IH]; intros i g items canc Hg Hd.
+  intros F stream HF HP. induction d as [|d IH]; intros i g items canc Hg Hd.
   - exfalso. assert (i < List.length F)%nat by (apply nth_error_Some; congruence). lia.
-  - cbn [run_graph]. apply steps_no_fuel; [| |apply incl_refl].
+  - cbn [run_graph]. apply steps_no_fuel; [| |intros st n Hst Hn; exact (HP i g st n Hg Hst Hn)|apply incl_refl].
     + intros st k gi g' Hst Hn Hg' items' canc'.
       destruct (HF i g st k gi Hg Hst Hn) as [H1 H2].
       apply (IH gi g' items' canc' Hg'). lia.
@@ -112,12 +144,22 @@ Qed.
    output stream and does not cancel the context *)
 Definition quiet_stages (F : forest) (stream : bool) (rec : graph -> list item -> bool -> gres)
                         (pre : list (list node)) : Prop :=
-  forall st n, In st pre -> In n st -> exec_node F stream rec [] false n = NOk [] false.
+  forall st n, In st pre -> In n st ->
+    exec_node F stream rec [] false n = NOk [] false /\ pre_fail_of stream [] n = [].
 
 Lemma ok_quiet : forall F stream rec pre, forallb (forallb ok_node) pre = true -> quiet_stages F stream rec pre.
 Proof.
-  intros F stream rec pre H st n Hst Hn. apply exec_ok_node.
-  rewrite forallb_forall in H. specialize (H st Hst). rewrite forallb_forall in H. apply H. exact Hn.
+  intros F stream rec pre H st n Hst Hn.
+  rewrite forallb_forall in H. specialize (H st Hst). rewrite forallb_forall in H. specialize (H n Hn).
+  split; [apply exec_ok_node; exact H|].
+  destruct n as [k f b| |]; try discriminate. destruct b; try discriminate. reflexivity.
+Qed.
+
+Lemma quiet_pre_fails : forall stream st, (forall n, In n st -> pre_fail_of stream [] n = []) ->
+  pre_fails stream [] st = [].
+Proof.
+  intros stream st H. unfold pre_fails. induction st as [|n st IH]; [reflexivity|].
+  cbn [flat_map]. rewrite (H n (or_introl eq_refl)). apply IH. intros n' Hn'. apply H. right. exact Hn'.
 Qed.
 
 (* [fails_at F stream d g p r] (d = nesting fuel of the run of g): p leads from g through
@@ -127,18 +169,33 @@ Qed.
 Inductive fails_at (F : forest) (stream : bool) : nat -> graph -> list string -> err -> Prop :=
 | fa_leaf : forall d g pre st post n es r,
     g_stages g = pre ++ st :: post -> quiet_stages F stream (run_graph F stream d) pre ->
-    (List.length pre < effective_max g)%nat ->
+    (List.length pre < effective_max g)%nat -> pre_fails stream [] st = [] ->
     In n st -> is_leaf n = true -> exec_leaf stream [] n = NErr es -> In r es ->
     is_interrupt_task r = false ->
     fails_at F stream (S d) g [node_key n] r
-| fa_sub : forall d g pre st post k gi g' p r,
+| fa_pre : forall d g pre st post k f u,
+    (* the node's state pre-handler fails: the node "fails" before its task starts, whatever the
+       other nodes of its stage are *)
     g_stages g = pre ++ st :: post -> quiet_stages F stream (run_graph F stream d) pre ->
     (List.length pre < effective_max g)%nat ->
+    In (NLam k f (BPreFail u)) st -> is_interrupt_task u = false ->
+    fails_at F stream (S d) g [k] (Wrapf (pre_error stream [] u))
+| fa_sub : forall d g pre st post k gi g' p r,
+    g_stages g = pre ++ st :: post -> quiet_stages F stream (run_graph F stream d) pre ->
+    (List.length pre < effective_max g)%nat -> pre_fails stream [] st = [] ->
     In (NSub k gi) st -> nth_error F gi = Some g' -> fails_at F stream d g' p r ->
     fails_at F stream (S d) g (k :: p) r.
 
+Lemma pre_error_interrupt_task : forall stream u, is_interrupt_task (Wrapf (pre_error stream [] u)) = is_interrupt_task u.
+Proof.
+  intros stream u. destruct (pre_error_shape stream u) as [ws [-> _]]. apply interrupt_task_through_wrappers.
+Qed.
+
 Lemma fails_at_not_interrupt : forall F stream d g p r, fails_at F stream d g p r -> is_interrupt_task r = false.
-Proof. intros F stream d g p r H. induction H; assumption. Qed.
+Proof.
+  intros F stream d g p r H. induction H; try assumption.
+  rewrite pre_error_interrupt_task. assumption.
+Qed.
 
 Lemma fails_at_nonempty : forall F stream d g p r, fails_at F stream d g p r -> p <> [].
 Proof. intros F stream d g p r H. destruct H; discriminate. Qed.
@@ -165,20 +222,22 @@ Lemma steps_skip_quiet : forall F stream rec all loop br pre cur k,
 Proof.
   intros F stream rec all loop br pre cur k. induction pre as [|st pre IH]; intros Hq Hne; [reflexivity|].
   cbn [List.length plus app steps].
+  rewrite (quiet_pre_fails stream st) by (intros n Hn; apply (Hq st n); [left; reflexivity|exact Hn]).
   rewrite (quiet_stage_fold F stream rec st) by (intros n Hn; apply (Hq st n); [left; reflexivity|exact Hn]).
   destruct (pre ++ cur) as [|x rest] eqn:E.
   - exfalso. apply app_eq_nil in E. destruct E as [_ E]. contradiction.
   - rewrite fan_nil. apply IH; [|exact Hne]. intros st' n Hst' Hn. apply (Hq st' n); [right; exact Hst'|exact Hn].
 Qed.
 
-Lemma fails_at_run : forall F stream, forward F ->
+Lemma fails_at_run : forall F stream, forward F -> post_ok F ->
   forall d g p r, fails_at F stream d g p r ->
   forall i, nth_error F i = Some g -> (List.length F - i <= d)%nat ->
   exists es, run_graph F stream d g [] false = GFail es /\ In (wrap_path p r) es.
 Proof.
-  intros F stream HF d g p r Hfa.
-  induction Hfa as [d g pre st post n es r Hst Hpre Hmax Hn Hleaf Hex Hr Hni
-                   |d g pre st post k gi g' p r Hst Hpre Hmax Hn Hg' Hfa IH];
+  intros F stream HF HP d g p r Hfa.
+  induction Hfa as [d g pre st post n es r Hst Hpre Hmax Hpf Hn Hleaf Hex Hr Hni
+                   |d g pre st post k f u Hst Hpre Hmax Hn Hni
+                   |d g pre st post k gi g' p r Hst Hpre Hmax Hpf Hn Hg' Hfa IH];
     intros i Hg Hd.
   - cbn [run_graph].
     replace (fanout (width_of_first (g_stages g)) []) with (@nil item)
@@ -190,13 +249,24 @@ Proof.
     destruct (step_reports_failure F stream (run_graph F stream d) all (g_loop g) (g_br g)
                 (effective_max g - List.length pre - 1) st post [] n es r) as [es' [Hrun Hin]]; auto.
     + rewrite is_leaf_exec by exact Hleaf. exact Hex.
-    + eapply stage_no_fuel; [| |exact Hin_st].
+    + eapply stage_no_fuel; [| | |exact Hin_st].
       * intros st0 k0 gi0 g0 Hst0 Hn0 Hg0 items canc.
         destruct (HF i g st0 k0 gi0 Hg Hst0 Hn0) as [H1 H2].
         eapply run_graph_no_fuel; eauto. lia.
       * intros st0 k0 gi0 Hst0 Hn0. destruct (HF i g st0 k0 gi0 Hg Hst0 Hn0) as [_ H2].
         apply nth_error_Some. exact H2.
+      * intros st0 n0 Hst0 Hn0. exact (HP i g st0 n0 Hg Hst0 Hn0).
     + exists es'. split; [exact Hrun|]. exact Hin.
+  - cbn [run_graph].
+    replace (fanout (width_of_first (g_stages g)) []) with (@nil item)
+      by (destruct (width_of_first (g_stages g)) as [|[|w]]; reflexivity).
+    set (all := g_stages g) at 1. rewrite Hst.
+    replace (effective_max g) with (List.length pre + S (effective_max g - List.length pre - 1))%nat by lia.
+    rewrite steps_skip_quiet by (assumption || discriminate).
+    destruct (pre_handler_failure_lemma F stream (run_graph F stream d) all (g_loop g) (g_br g)
+                (effective_max g - List.length pre - 1) st post [] k f u Hn) as [es' [Hrun [Hin _]]].
+    { unfold pre_panic. destruct stream; reflexivity. }
+    exists es'. split; [exact Hrun|]. exact Hin.
   - assert (Hin_st : In st (g_stages g)) by (rewrite Hst; apply in_or_app; right; left; reflexivity).
     destruct (HF i g st k gi Hg Hin_st Hn) as [Hlt Hlen].
     destruct (IH gi Hg' ltac:(lia)) as [es0 [Hrun0 Hin0]].
@@ -211,12 +281,13 @@ Proof.
       as [es' [Hrun Hin]]; auto.
     + cbn [exec_node]. rewrite Hg', Hrun0. reflexivity.
     + rewrite wrap_path_interrupt_task. eapply fails_at_not_interrupt; eauto.
-    + eapply stage_no_fuel; [| |exact Hin_st].
+    + eapply stage_no_fuel; [| | |exact Hin_st].
       * intros st0 k0 gi0 g0 Hst0 Hn0 Hg0 items canc.
         destruct (HF i g st0 k0 gi0 Hg Hst0 Hn0) as [H1 H2].
         eapply run_graph_no_fuel; eauto. lia.
       * intros st0 k0 gi0 Hst0 Hn0. destruct (HF i g st0 k0 gi0 Hg Hst0 Hn0) as [_ H2].
         apply nth_error_Some. exact H2.
+      * intros st0 n0 Hst0 Hn0. exact (HP i g st0 n0 Hg Hst0 Hn0).
     + exists es'. split; [exact Hrun|]. exact Hin.
 Qed.
 
@@ -224,14 +295,14 @@ Definition stream_of (p : paradigm) : bool := match p with PInvoke => false | _ 
 
 (* through the public API *)
 Lemma failing_node_reported_lemma : forall g F' par p r,
-  forward (g :: F') -> fails_at (g :: F') (stream_of par) (S (List.length (g :: F'))) g p r ->
+  forward (g :: F') -> post_ok (g :: F') -> fails_at (g :: F') (stream_of par) (S (List.length (g :: F'))) g p r ->
   In (AErr (top_error par (wrap_path p r))) (answers (g :: F') par false None) /\
   (is_interrupt_error r = false ->
      msg_path (top_error par (wrap_path p r)) = p ++ np_of r /\
      np_of (top_error par (wrap_path p r)) = p ++ np_of r).
 Proof.
-  intros g F' par p r HF Hfa. split.
-  - destruct (fails_at_run (g :: F') (stream_of par) HF _ g p r Hfa 0%nat eq_refl ltac:(lia))
+  intros g F' par p r HF HP Hfa. split.
+  - destruct (fails_at_run (g :: F') (stream_of par) HF HP _ g p r Hfa 0%nat eq_refl ltac:(lia))
       as [es [Hrun Hin]].
     unfold answers.
     replace (match par with PInvoke => false | _ => true end) with (stream_of par) by reflexivity.
@@ -245,11 +316,12 @@ Proof.
 Qed.
 
 (* a well-nested forest never makes the public call run out of nesting fuel *)
-Lemma answers_no_fuel_lemma : forall g F' par cb ii, forward (g :: F') -> ~ In AFuel (answers (g :: F') par cb ii).
+Lemma answers_no_fuel_lemma : forall g F' par cb ii, forward (g :: F') -> post_ok (g :: F') ->
+  ~ In AFuel (answers (g :: F') par cb ii).
 Proof.
-  intros g F' par cb ii HF Hin. unfold answers in Hin.
+  intros g F' par cb ii HF HP Hin. unfold answers in Hin.
   match type of Hin with context [run_graph ?F ?s ?d ?gg ?its ?c] =>
-    pose proof (run_graph_no_fuel F s HF d 0%nat gg its c eq_refl ltac:(cbn [List.length]; lia)) as Hnf;
+    pose proof (run_graph_no_fuel F s HF HP d 0%nat gg its c eq_refl ltac:(cbn [List.length]; lia)) as Hnf;
     destruct (run_graph F s d gg its c) as [its' c'|es| |i|]
   end.
   - destruct its' as [|it0 its'']; [destruct Hin as [H|[]]; discriminate|].
@@ -304,11 +376,12 @@ Definition branch_origin (stream : bool) (u : err) : err :=
    with u under key-free wrappers (recoverable by [orig_recoverable]); no node is named *)
 Lemma branch_failure_lemma : forall F stream rec all loop k st u,
   (forall n, In n st -> exec_node F stream rec [] false n = NOk [] false) ->
+  pre_fails stream [] st = [] ->
   steps F stream rec all loop (BrFail u) (S k) [st] [] false = GFail [branch_error (branch_origin stream u)] /\
   exists ws, branch_error (branch_origin stream u) = apply_ws ws u /\ keys_of ws = [].
 Proof.
-  intros F stream rec all loop k st u Hq. split.
-  - cbn [steps]. rewrite (quiet_stage_fold F stream rec st Hq). reflexivity.
+  intros F stream rec all loop k st u Hq Hpf. split.
+  - cbn [steps]. rewrite Hpf. rewrite (quiet_stage_fold F stream rec st Hq). reflexivity.
   - unfold branch_origin. destruct stream.
     + exists [WGraphRun; WWrapf; WWrapf; WWrapf; WStream CollectByInvoke]. split; reflexivity.
     + exists [WGraphRun; WWrapf; WWrapf; WWrapf]. split; reflexivity.
